@@ -182,7 +182,13 @@ func oneMain(args []string) {
 		}
 	}()
 	if shards[idx].Replay != nil {
-		shards[idx].Replay(st.Seed, st.History)
+		fails, err := shards[idx].Replay(st.Seed, st.History)
+		if err != nil {
+			fmt.Println("replay-error: " + err.Error())
+		}
+		for _, f := range fails {
+			fmt.Println("failed-clause: " + f.Clause)
+		}
 	}
 	fmt.Println("completed")
 }
@@ -230,6 +236,49 @@ var InFlight = func() string { return "" }
 
 // InFlightOps names the history being executed (seed name, operation names).
 var InFlightOps = func() (seed string, history []string) { return "", nil }
+
+// Progress is called by the shards that enumerate inputs without the explorer,
+// once per input: it advances the watchdog's tick and records how to describe
+// the input being evaluated (rendered only if the evaluation never returns).
+func Progress(desc func() string) {
+	progressDesc = desc
+	atomic.AddInt64(&Current.Tick, 1)
+}
+
+var progressDesc func() string
+
+// ProgressInput is the allocation-free variant for shards that evaluate
+// hundreds of millions of small inputs: a label, a byte string and an integer.
+func ProgressInput(label string, b []byte, u uint64) {
+	progressLabel, progressBytes, progressU = label, b, u
+	if progressDesc == nil {
+		progressDesc = func() string {
+			return fmt.Sprintf("%s % x %d (bits %#x)", progressLabel, progressBytes, progressU, progressU)
+		}
+	}
+	atomic.AddInt64(&Current.Tick, 1)
+}
+
+var (
+	progressLabel string
+	progressBytes []byte
+	progressU     uint64
+)
+
+func init() {
+	InFlight = func() string {
+		if progressDesc != nil {
+			return progressDesc()
+		}
+		return ""
+	}
+	InFlightOps = func() (string, []string) {
+		if progressDesc != nil {
+			return "input", []string{progressDesc()}
+		}
+		return "", nil
+	}
+}
 
 type evidence struct {
 	PropertyID  string         `json:"property_id"`
@@ -307,6 +356,7 @@ func driverMain(id, tier string) int {
 	results := make([]*Result, len(shards))
 	var mu sync.Mutex
 	var incidents []string
+	var pinned int32 // set once a hang or crash has been pinned and confirmed
 	jobs := make(chan int)
 	var wg sync.WaitGroup
 	for w := 0; w < ncpu; w++ {
@@ -396,7 +446,41 @@ func driverMain(id, tier string) int {
 					}
 					os.Remove(jpath)
 				}
-				if ok && res.Stuck != nil {
+				if ok && res.Stuck != nil && atomic.LoadInt32(&pinned) != 0 {
+					// a hang or crash has already been pinned and confirmed in this check:
+					// further stuck shards are listed, not pinned again (each confirmation
+					// costs up to a shard's budget)
+					res.Incidents = append(res.Incidents, fmt.Sprintf("%s in shard %s (not pinned: another one was already confirmed): [%s] %s", res.Stuck.Kind, shards[i].Name, res.Stuck.Seed, strings.Join(res.Stuck.History, "; ")))
+					res.Stuck = nil
+				}
+				if ok && res.Stuck != nil && res.Stuck.Seed == "input" {
+					// a shard that enumerates inputs without the explorer: the same worker once
+					// more; it must get stuck on the same input again
+					deadline2 := time.Now().Add(budget)
+					c2 := exec.Command(exe, "-worker", id, tier, strconv.Itoa(i), strconv.FormatInt(deadline2.UnixMilli(), 10))
+					c2.Env = append(os.Environ(), "GOMAXPROCS=1", "GOMEMLIMIT=5GiB")
+					var out2 bytes.Buffer
+					c2.Stdout = &out2
+					d2 := make(chan error, 1)
+					if c2.Start() == nil {
+						go func() { d2 <- c2.Wait() }()
+						select {
+						case <-d2:
+						case <-time.After(budget + 90*time.Second):
+							c2.Process.Kill()
+							<-d2
+						}
+					}
+					var res2 Result
+					lines2 := bytes.Split(bytes.TrimSpace(out2.Bytes()), []byte("\n"))
+					if len(lines2) > 0 && json.Unmarshal(lines2[len(lines2)-1], &res2) == nil && res2.Stuck != nil && strings.Join(res2.Stuck.History, ";") == strings.Join(res.Stuck.History, ";") {
+						atomic.StoreInt32(&pinned, 1)
+						res.Violations = append(res.Violations, Violation{Property: id, Clause: id + "." + res.Stuck.Kind, Scenario: shards[i].Name, Seed: res.Stuck.Seed, History: res.Stuck.History,
+							Detail: "the evaluation of this input does not complete: in two separate worker processes it neither returned within 30 s nor stayed below 6 GB", Params: "stuck"})
+					} else {
+						res.Incidents = append(res.Incidents, fmt.Sprintf("%s in shard %s was not reproduced by a second run: %s", res.Stuck.Kind, shards[i].Name, strings.Join(res.Stuck.History, "; ")))
+					}
+				} else if ok && res.Stuck != nil {
 					// pin the hang to that one history: it must fail to complete twice, alone,
 					// within 20 s each (six orders of magnitude above its normal cost)
 					hj, _ := json.Marshal(res.Stuck)
@@ -422,6 +506,7 @@ func driverMain(id, tier string) int {
 						}
 					}
 					if failures == 2 {
+						atomic.StoreInt32(&pinned, 1)
 						res.Violations = append(res.Violations, Violation{Property: id, Clause: id + "." + res.Stuck.Kind, Scenario: res.Stuck.Scenario, Seed: res.Stuck.Seed, History: res.Stuck.History,
 							Detail: "this history does not complete: executed alone in a fresh process, twice, it crashed the process, did not finish within 20 s or did not stay below 4 GB", Params: "stuck"})
 					}
@@ -520,10 +605,14 @@ func driverMain(id, tier string) int {
 	knownHit := map[string]bool{}
 	os.MkdirAll(filepath.Join(outDir(), "replays"), 0o755)
 	shardByName := map[string]*Shard{}
+	shardIndex := map[string]int{}
 	for i := range shards {
 		shardByName[shards[i].Name] = &shards[i]
+		shardIndex[shards[i].Name] = i
 	}
 	seenSig := map[string]bool{}
+	hungShard := map[string]bool{}
+	skippedAfterPin := 0
 	for _, v := range viols {
 		if seenSig[v.Signature()] {
 			continue
@@ -531,19 +620,54 @@ func driverMain(id, tier string) int {
 		seenSig[v.Signature()] = true
 		// determinism: the same history must fail the same clause again, twice
 		if sh := shardByName[v.Scenario]; sh != nil && sh.Replay != nil && v.Params != "stuck" {
-			confirmed := 0
+			// (in a child process each time: a replay may itself hang or crash)
+			if reported >= 10 {
+				continue // enough has been reported; further violations are not examined
+			}
+			if atomic.LoadInt32(&pinned) != 0 {
+				// a hang or crash has been pinned and confirmed: replaying other histories
+				// of the same tree is likely to hang as well; they are not examined
+				skippedAfterPin++
+				continue
+			}
+			confirmed, incomplete := 0, 0
+			idx := shardIndex[v.Scenario]
+			hj, _ := json.Marshal(StuckHistory{Kind: "confirm", Scenario: v.Scenario, Seed: v.Seed, History: v.History})
+			if hungShard[v.Scenario] {
+				// a replay of this shard has already failed to complete twice (shards that
+				// enumerate inputs replay as a whole): one report per shard is enough
+				continue
+			}
 			for k := 0; k < 2; k++ {
-				fails, err := sh.Replay(v.Seed, v.History)
-				if err == nil {
-					for _, f := range fails {
-						if f.Clause == v.Clause {
-							confirmed++
-							break
-						}
-					}
+				c := exec.Command(exe, "-one", id, tier, strconv.Itoa(idx), string(hj))
+				c.Env = append(os.Environ(), "GOMAXPROCS=1", "GOMEMLIMIT=5GiB")
+				var o bytes.Buffer
+				c.Stdout = &o
+				d := make(chan error, 1)
+				if c.Start() != nil {
+					incomplete++
+					continue
+				}
+				go func() { d <- c.Wait() }()
+				select {
+				case <-d:
+				case <-time.After(budget + 60*time.Second):
+					c.Process.Kill()
+					<-d
+				}
+				switch {
+				case !strings.Contains(o.String(), "completed"):
+					incomplete++
+				case strings.Contains(o.String(), "failed-clause: "+v.Clause+"\n"):
+					confirmed++
 				}
 			}
-			if confirmed < 2 {
+			if incomplete == 2 {
+				hungShard[v.Scenario] = true
+				// the history that violated a clause does not even complete when replayed alone
+				v.Clause = v.Property + ".no-hang"
+				v.Detail = "replayed alone in a fresh process, twice, this history did not complete (hang, crash or memory blow-up); it was first reported for: " + v.Detail
+			} else if confirmed < 2 {
 				// the same history must fail the same clause every time before it is believed
 				incidents = append(incidents, fmt.Sprintf("INTERNAL: violation of %s in %s reproduced in %d of two replays (nondeterminism not owned) and is not reported; history: %s", v.Clause, v.Scenario, confirmed, strings.Join(v.History, "; ")))
 				continue
@@ -583,6 +707,9 @@ func driverMain(id, tier string) int {
 		}
 		reported++
 		exit = 1
+	}
+	if skippedAfterPin > 0 {
+		incidents = append(incidents, fmt.Sprintf("%d further violation reports were not examined because a hang or crash had been pinned and confirmed", skippedAfterPin))
 	}
 	for k, v := range allow {
 		if v > 0.5 {
